@@ -272,7 +272,7 @@ var templates = []struct {
 var badParses = []string{"b `if`", "x '''abc'''", "a `k`\nb `q`", "f(a) \"\"\"m\"\"\"", "1 `x y`", "a = 1 `b`", "x = '''t''' '''u'''",
 	"x = = 1", "-0x", "for a in 1e {}", "\"unterminated", "a[", "if a {", "x = 1 +", "f(", "`", "\"\\q\"", "a = 1; b = ;", "{\"a\": }", "for ;; ", ")", "x = \"a\" \"b\""}
 var badLoads = []string{"for i in [1] { nosuch() }", "for ;; { add_key() }", "for x in [1] { for y in [2] { cast(a, \"zzz\") } }", "for i in [1] { break }\nbreak", "if true { for ;; { } continue }", "for k in {\"a\": 1} { grok(_, \"%{NOSUCH:x}\") }\ncontinue",
-	"ok = grok(_, \"%{tok:val}\")", "grok(_, \"%{inner:x}\")", "nosuch()", "add_key()", "break", "cast(a, \"zzz\")", "grok(_, \"%{NOSUCH:x}\")", "if true { continue }", "x = [1, nosuch2()]", "use(1)"}
+	"ok = grok(_, \"%{tok:val}\")", "grok(_, \"%{inner:x}\")", "if true { grok(_, \"%{inner:x}\") }", "for i in [1] { if true { ok = grok(_, \"%{tok:val}\") } }", "if false { } else { grok(_, \"%{mine}\") }", "nosuch()", "add_key()", "break", "cast(a, \"zzz\")", "grok(_, \"%{NOSUCH:x}\")", "if true { continue }", "x = [1, nosuch2()]", "use(1)"}
 
 func genPool(t *rapid.T, n int) []*Op {
 	var pool []*Op
